@@ -1482,7 +1482,7 @@ func (x *swx) scanFunc(fi *fnInfo) []swCand {
 
 // ---------------------------------------------------------------- output
 
-func leanStr(s string) string {
+func shar_leanStr(s string) string {
 	s = strings.ReplaceAll(s, `\`, `\\`)
 	s = strings.ReplaceAll(s, `"`, `\"`)
 	return `"` + s + `"`
@@ -1518,11 +1518,11 @@ func (x *swx) emit() string {
 	}
 	for _, r := range x.rows {
 		sep()
-		fmt.Fprintf(&sb, ".write %s %d %s %s .%s .%s %s %s\n", leanStr(r.file), r.line, leanStr(r.fn), leanStr(r.target), r.root, r.sync, leanStr(r.global), leanStr(r.via))
+		fmt.Fprintf(&sb, ".write %s %d %s %s .%s .%s %s %s\n", shar_leanStr(r.file), r.line, shar_leanStr(r.fn), shar_leanStr(r.target), r.root, r.sync, shar_leanStr(r.global), shar_leanStr(r.via))
 	}
 	for _, u := range x.unrec {
 		sep()
-		fmt.Fprintf(&sb, ".unrecognised %s\n", leanStr(u))
+		fmt.Fprintf(&sb, ".unrecognised %s\n", shar_leanStr(u))
 	}
 	sb.WriteString("]\n\n")
 	// reachable function names, for inspection (comment only)
